@@ -48,3 +48,5 @@ func Or(a, b bool) bool              { return a || b }
 func Implies(a, b bool) bool         { return !a || b }
 func Ite(c bool, a, b int) int       { return a }
 func HasPrefixC(s, prefix string) bool { return false }
+
+func ParseLnCol(s string) (line, col int, ok bool) { return 0, 0, false }
